@@ -25,6 +25,12 @@ M = [
  ('C04-m2', 'C04', CORE + 'transitive_closure.rs', '                    if !entity.has_edge_to(grandparent) {', '                    if false && !entity.has_edge_to(grandparent) {'),
  ('C04-m3', 'C04', CORE + 'transitive_closure.rs', '        if entity.out_edges().contains(&key) {', '        if false && entity.out_edges().contains(&key) {'),
  ('C04-m4', 'C04', CORE + 'transitive_closure.rs', '                    succ.extend(comp_succ[tail_elt].clone());', ''),
+ ('C06-m1', 'C06', CORE + 'est/expr.rs', '            Expr::ExprNoExt(ExprNoExt::ContainsAll { left, right }) => Ok(ast::Expr::contains_all(', '            Expr::ExprNoExt(ExprNoExt::ContainsAll { left, right }) => Ok(ast::Expr::contains_any('),
+ ('C06-m2', 'C06', CORE + 'est/expr.rs', '        Expr::ExprNoExt(ExprNoExt::Sub {\n            left: Arc::new(left),\n            right: Arc::new(right),', '        Expr::ExprNoExt(ExprNoExt::Sub {\n            left: Arc::new(right),\n            right: Arc::new(left),'),
+ ('C06-m3', 'C06', CORE + 'ast/expr_builder.rs', None, None),
+ ('C15-m1', 'C15', CORE + 'batched_evaluator.rs', '            if !entities.contains_entity(&uid) {\n                to_load.insert(uid);\n            }', '            if !entities.contains_entity(&uid) && to_load.is_empty() {\n                to_load.insert(uid);\n            }'),
+ ('C15-m2', 'C15', CORE + 'batched_evaluator.rs', '    for _i in 0..max_iters {', '    for _i in 0..=max_iters {'),
+ ('C15-m3', 'C15', CORE + 'batched_evaluator.rs', '                None => {\n                    entities.add_entity_trusted(', '                None if false => {\n                    entities.add_entity_trusted('),
  ('C16-m1', 'C16', CORE + 'validator/level_validate.rs', None, None),
 ]
 
